@@ -2,7 +2,7 @@
 
 Translated (statement by statement, in source order; anything unrecognised is Untranslatable):
   TaskHandler.__init__ (initial state), __check_open, _next_id, submit_task (check, id, pool.submit, pending store,
-  done-callback attached, future returned), the done-callback (removes its id from the pending map),
+  done-callback attached, future returned; also the path on which `pool.submit` itself raises: `submitRejected`), the done-callback (removes its id from the pending map),
   PushService.push_snapshot (hands `_push_task` to submit_task — or calls it inline), `_push_task` (convert, drop when
   unconvertible, one send).
 Skeleton (harness/skeleton.py -> Guard.Stmt): TaskHandler.flush — which statement closes the handler, what the loop
@@ -146,6 +146,13 @@ def gen_submit(t):
            '/-- `submit_task` as a whole -/\n'
            'def submitTask (st : TH) : Except Py.Exn (TH × Int) :=\n'
            '  match submitAccept st with\n  | .error e => .error e\n  | .ok (st, id) => .ok (submitStore st id, id)\n')
+    # the executor refuses the callable: everything before `pool.submit` has happened, nothing after it
+    upto = [l for l in before if not l.startswith('let future :=') and 'accepted := st.accepted ++' not in l]
+    rej = [l.replace('.error refusalClass', '(st, refusalClass)') for l in upto]
+    out += ('\n/-- `submit_task` when the executor itself refuses the callable: `self._pool.submit` raises RuntimeError\n'
+            '    ("cannot schedule new futures after shutdown" — the pool was shut down, as at interpreter exit).  The\n'
+            '    statements before it have run, none after it: the handler state that is left, and the class raised -/\n'
+            'def submitRejected (st : TH) : TH × Py.Exn :=\n  ' + '\n  '.join(rej) + '\n  (st, Py.Exn.exc)\n')
     # callback
     removes = False
     if cb is not None and attached:
